@@ -419,7 +419,7 @@ class FactoryFunctorPool(FunctorPool):
             self.verbose = verbose
 
         def run(self) -> None:
-            while not self.stop_event.is_set():
+            while True:  # ends with the stop token, which must always be consumed (else it stops the next thread)
                 replace_id = self.pool._replace_queue.get()
                 if replace_id is None:
                     break
